@@ -120,10 +120,14 @@ class LayoutAnalysis(progcheck.ProgramAnalysis):
                     raise LayoutViolation('%s of %d word(s) at cursor %d, layout cell there is %s(%s)' % (ins, size, pos, kind, n))
             else:
                 raise LayoutViolation('state access from unexpected instruction %s' % ins)
-            prev = hit.get(pos)
-            if prev is not None and not (ins in ('GetState', 'SetState', 'Mem') and prev[0] in ('GetState', 'SetState', 'Mem')):
+            prev = hit.setdefault(pos, [])
+            if prev and not (ins in ('GetState', 'SetState', 'Mem') and all(p_ in ('GetState', 'SetState', 'Mem') for p_ in prev)):
                 raise LayoutViolation('cell at offset %d accessed by two different sites in one dsp call (%s, %s)' % (pos, prev[0], ins))
-            hit[pos] = (ins, how)
+            if prev.count(ins) >= (2 if ins == 'Mem' else 1):        # the VM's Mem arm calls get_state_mut twice (read, then write)
+                # one call site reads (GetState / Mem / Delay) and writes (SetState) its cell once per dsp call: a second access by
+                # the same kind of instruction means two call sites were given the same cell
+                raise LayoutViolation('cell at offset %d is accessed twice by %s in one dsp call: two call sites share one layout cell' % (pos, ins))
+            prev.append(ins)
         if 'vm_pos' in step:
             p = step['vm_pos'].v
             r['checks'] += 1
@@ -339,6 +343,13 @@ def confirm_layout(path, d, steps):
         leaves = d.get('leaves') or []
         cells = {a: (s, k, n) for a, s, k, n in leaves}
         for step_acc in vm.get('state_accesses') or []:
+            seen_acc = {}
+            for pos, size, kind in step_acc:
+                seen_acc[(pos, kind)] = seen_acc.get((pos, kind), 0) + 1
+            dup = sorted(k for k, n_ in seen_acc.items() if n_ > (2 if k[1] == 1 else 1))      # kind 1 = get_state_mut: twice per Mem
+            if dup and 'twice' in (d.get('msg') or ''):
+                ok = True
+                info['real_cell_accessed_twice_in_one_dsp_call'] = dup[:4]
             for pos, size, kind in step_acc:
                 leaf = cells.get(pos)
                 if leaf is None:
